@@ -181,23 +181,9 @@ theorem extractSpectrum_cons (mz it : List Rat) (lo hi : Rat) (rest : List (Rat 
   · have : ssLeft mz lo ≥ ssLeft mz hi := by omega
     simp [h, this]
 
-/-! ### placement -/
+/-! ### running maximum -/
 
-theorem place_append_one {β} (f : Spectrum → β) (specs : List Spectrum) (s : Spectrum) :
-    place f (specs ++ [s]) = (place f specs).set (s.y - 1) (s.x - 1) (f s) := by
-  simp [place, List.foldl_append]
-
-theorem lastAt_append_one (specs : List Spectrum) (s : Spectrum) (r c : Nat) :
-    lastAt (specs ++ [s]) r c = if s.y - 1 = r ∧ s.x - 1 = c then some s else lastAt specs r c := by
-  simp only [lastAt, List.reverse_append, List.reverse_cons, List.reverse_nil, List.nil_append,
-    List.cons_append, List.find?_cons]
-  by_cases h : s.y - 1 = r ∧ s.x - 1 = c
-  · simp [h]
-  · simp [h]
-
-/-! ### running minimum / maximum -/
-
-theorem foldl_max_ge (xs : List Nat) (x : Nat) : x ≤ xs.foldl max x ∧ ∀ y ∈ xs, y ≤ xs.foldl max x := by
+theorem foldl_max_ge (xs : List Int) (x : Int) : x ≤ xs.foldl max x ∧ ∀ y ∈ xs, y ≤ xs.foldl max x := by
   induction xs generalizing x with
   | nil => simp
   | cons z zs ih =>
@@ -205,31 +191,31 @@ theorem foldl_max_ge (xs : List Nat) (x : Nat) : x ≤ xs.foldl max x ∧ ∀ y 
     have := ih (max x z)
     refine ⟨by omega, by omega, this.2⟩
 
-theorem le_maxList (l : List Nat) (y : Nat) (hy : y ∈ l) : y ≤ maxList l := by
+theorem le_maxInt (l : List Int) (y : Int) (hy : y ∈ l) : y ≤ maxInt l := by
   cases l with
   | nil => simp at hy
   | cons x xs =>
-    simp only [maxList]
+    simp only [maxInt]
     rcases List.mem_cons.mp hy with h | h
     · subst h; exact (foldl_max_ge xs y).1
     · exact (foldl_max_ge xs x).2 y h
 
-theorem foldl_max_mem (xs : List Nat) (x : Nat) : xs.foldl max x = x ∨ xs.foldl max x ∈ xs := by
+theorem foldl_max_mem (xs : List Int) (x : Int) : xs.foldl max x = x ∨ xs.foldl max x ∈ xs := by
   induction xs generalizing x with
   | nil => simp
   | cons z zs ih =>
     simp only [List.foldl_cons, List.mem_cons]
     rcases ih (max x z) with h | h
-    · rcases Nat.le_total x z with hxz | hxz
+    · rcases Int.le_total x z with hxz | hxz
       · right; left; rw [h]; omega
       · left; rw [h]; omega
     · right; right; exact h
 
-theorem maxList_mem (l : List Nat) (hl : l ≠ []) : maxList l ∈ l := by
+theorem maxInt_mem (l : List Int) (hl : l ≠ []) : maxInt l ∈ l := by
   cases l with
   | nil => exact absurd rfl hl
   | cons x xs =>
-    simp only [maxList, List.mem_cons]
+    simp only [maxInt, List.mem_cons]
     exact foldl_max_mem xs x
 
 /-! ### mass range -/
@@ -261,8 +247,8 @@ theorem massRange_append_one (specs : List Spectrum) (s : Spectrum) :
 
 /-- invariant of the running minimum / maximum -/
 theorem massRange_inv (specs : List Spectrum) (hne : ∀ s ∈ specs, s.mz ≠ []) (hs : ∀ s ∈ specs, Incr s.mz) :
-    (specs = [] ∧ massRange specs = (none, none)) ∨
-    ∃ lo hi, massRange specs = (some lo, some hi) ∧
+    (specs = [] ∧ massRange specs = some (none, none)) ∨
+    ∃ lo hi, massRange specs = some (some lo, some hi) ∧
       (∀ s ∈ specs, ∀ m ∈ s.mz, lo ≤ m ∧ m ≤ hi) ∧
       (∃ s ∈ specs, lo ∈ s.mz) ∧ (∃ s ∈ specs, hi ∈ s.mz) := by
   induction specs using List.reverseRecOn with
